@@ -183,7 +183,8 @@ DEFAULT_KNOBS = dict(
     daemon_latency=(0.0005, 0.05), net_latency=(0.001, 0.05), fault_rate=0.0,
     orphans_return=True, txindex=True, urls=1, resegment=True, max_hist_row=None,
     services='tcp://:50001,rpc://:8000', peer_discovery='off', tor_proxy_port=None, session_timeout=10_000_000,
-    request_timeout=30, cost_limits=(0, 0), extra_env=None, stall_boost=None,
+    request_timeout=30, cost_limits=(0, 0), extra_env=None, stall_boost=None, polling_delay=None,
+    refresh_secs=None,
 )
 
 
@@ -249,6 +250,10 @@ class World:
         random.seed(12345 + self.incarnations)
         SimCoin.GENESIS_ACTIVATION = self.k['activation']
         SimCoin._prefetch = self.k['prefetch']
+        # hard-coded poll periods, varied only by families to which block / mempool polling is irrelevant
+        bpmod.BlockProcessor.polling_delay = self.k.get('polling_delay') or 5
+        rs = float(self.k.get('refresh_secs') or 5.0)
+        mpmod.MemPool.__init__.__defaults__ = (rs, 60.0)
 
     def _install(self):
         global _current
